@@ -243,8 +243,40 @@ def run_case(case, rec):
     rec.sample(show)
 
 
+def run_handwritten(rec, name, build, pt, value, partials):
+    from optyx.core import autodiff as AD
+    from optyx.core import compiler as C
+
+    rec.case({"handwritten": name})
+    cell = "handwritten:" + name
+    show = {"case": name, "point": pt, "expected": partials}
+    for order in ("declared", "reversed"):
+        e, _wrt = build()
+        # compiled callables need every variable of the expression in the list; entries whose partial is not defined are not judged
+        V = sorted(e.get_variables(), key=lambda v: v.name)
+        if order == "reversed":
+            V = list(reversed(V))
+        x = np.array([pt[v.name] for v in V], dtype=float)
+        judged = [i for i, v in enumerate(V) if v.name in partials]
+        want = np.array([partials[V[i].name] for i in judged])
+        for route, mk in (("compile_jacobian", lambda: AD.compile_jacobian([e], V)), ("compile_gradient", lambda: C.compile_gradient(e, V)),
+                          ("CompiledExpression.gradient", lambda: C.CompiledExpression(e, V).gradient)):
+            rec.cmp(len(V), cell)
+            try:
+                with np.errstate(all="ignore"):
+                    got = np.asarray(mk()(x), dtype=float).reshape(-1)[judged]
+            except Exception as ex:
+                rec.violation(f"{route}:raises:{type(ex).__name__}", {"show": show, "error": repr(ex)[:200]})
+                continue
+            if got.shape != want.shape or not all(close(g_, w_, RTOL, 10.0)[0] for g_, w_ in zip(got, want)):
+                rec.violation(f"{route}:mismatch", {"show": show, "order": order, "got": got.tolist(), "want": want.tolist()})
+
+
 def run(ctx, rec):
     rng = ctx.rng
+    for i_, (name, build, pt, value, partials) in enumerate(X.handwritten_cases()):
+        if ctx.mine(i_ + 7):
+            run_handwritten(rec, name, build, pt, value, partials)
     fams = X.directed_families()
     i = 0
     for fam, node in fams:
